@@ -21,7 +21,14 @@ def setup():
     run_all()
     ok, out = core.lake_build(["SqlfluffVerif", "driver"])
     print(out[-3000:])
-    return 0 if ok else 2
+    if not ok:
+        return 2
+    # pre-build every property module (in parallel); a module that fails here (e.g. a regenerated obligation that no longer
+    # holds on a changed repo) is not a set-up failure: its own check rebuilds it and reports what broke
+    props = sorted(p.stem for p in (core.LIB / "Props").glob("*.lean"))
+    ok2, out2 = core.lake_build(["SqlfluffVerif.Props.%s" % p for p in props] + ["SqlfluffVerif.Gen.GrammarSkel"])
+    print(out2[-1500:])
+    return 0
 
 
 def main():
